@@ -259,6 +259,7 @@ func bootGenesis(c *Config, ex *Exported, bals []Balance, sdkMint *minttypes.Gen
 		return nil, err
 	}
 	a := newApp(tmp)
+	appDB := lastDB
 	cdc := a.Codec
 
 	gen := hubapp.ModuleBasics.DefaultGenesis(cdc)
@@ -349,7 +350,7 @@ func bootGenesis(c *Config, ex *Exported, bals []Balance, sdkMint *minttypes.Gen
 	}
 
 	// the configuration object is kept: after boot only Cfg.Keyed (registered keys) is read.
-	s := &Sim{App: a, Cfg: c, tmp: tmp, Actors: actors}
+	s := &Sim{App: a, Cfg: c, tmp: tmp, Actors: actors, db: appDB}
 	s.Denoms = append([]string{}, denoms...)
 	sort.Strings(s.Denoms)
 	s.Time = now
